@@ -92,3 +92,28 @@ def negative_control(ctx, vec, base, n=400):
     if summ["n_disagree"] != len(bad):
         raise core.Broken("negative control: %d of %d corrupted vectors were accepted"
                           % (len(bad) - summ["n_disagree"], len(bad)))
+
+
+def crash_control(ctx, vec, base, n=50):
+    """Negative control of the crash-only replay: vectors whose program is replaced by a
+    deliberate panic inside the replay scope must all be reported."""
+    bad = []
+    with open(vec) as f:
+        for line in f:
+            v = json.loads(line)
+            if isinstance(v, str):
+                v = json.loads(v)
+            v["op"], v["prog"] = ".verif-selftest-panic", []
+            bad.append(v)
+            if len(bad) >= n:
+                break
+    p = os.path.join(ctx.scratch, "crashctl.ndjson")
+    with open(p, "w") as f:
+        for w in bad:
+            f.write(json.dumps(w) + "\n")
+    summ = ctx.vh_json("replay-ps", "-crash-only", "-base", base, p)
+    ctx.extra.setdefault("negative_controls", []).append(
+        {"deliberate_panics": len(bad), "reported": summ["n_disagree"]})
+    if summ["n_disagree"] != len(bad):
+        raise core.Broken("crash control: %d of %d deliberate panics went unreported"
+                          % (len(bad) - summ["n_disagree"], len(bad)))
